@@ -21,6 +21,8 @@ CONSTANTS
   FIX_RENAMEDIR = TRUE
   FIX_SCANWATCHED = TRUE
   FIX_RETRY = TRUE
+  FIX_OVERFLOW = TRUE
+  QMax = 99
   RECORD = FALSE
 INVARIANTS NotDone
 CHECK_DEADLOCK FALSE
